@@ -1,7 +1,6 @@
 """C40 -- OpResult has optional semantics with balanced lifetimes.   Tie: D (real OpResult<L> + real std::optional<L> vs model, judged in Coq)."""
 import dv, pf_common
 
-FINDING = 'move-leaks-moved-from'
 NV = 4
 
 META = {
@@ -10,12 +9,11 @@ META = {
                  '+ differential run of the real OpResult<L> and the real std::optional<L> with lifetime-tracked payloads against model and specification, judged by vm_compute',
     'text': 'Kernel-checked: for ALL valid operation sequences over any number of OpResult variables (default/value/copy/move construction, copy/move assignment incl. self, '
             'emplace, write through value(), destruction) the variables refine std::optional (identical, except that a moved-from source reads disengaged where std::optional '
-            'stays engaged with an unspecified value) [C40_refines_optional]; the balanced-lifetimes half is REFUTED [C40_refuted, C40_full_statement_false, '
-            'C40_refuted_overwrite]: move construction / move assignment from an engaged OpResult null the source pointer without destroying the moved-from object; on the '
-            'complement (no move from an engaged OpResult) the variables equal the std::optional program exactly, no misuse occurs, live objects are exactly the contents of '
-            'engaged variables and at the end constructions = destructions [C40_holds_except].  The correspondence runs the real class on generated sequences, compares every '
-            'intermediate state and counter with the model inside Coq and evaluates the executable property on the implementation output; violations are classified by the '
-            'same Gallina predicate (has_engaged_move) that delimits C40_holds_except.',
+            'stays engaged with an unspecified value; exactly equal when no engaged value is moved) [C40_refines_optional, C40_exact_without_engaged_move] and lifetimes are '
+            'balanced: no misuse ever, live objects are exactly the contents of engaged variables, and at the end constructions = destructions [C40_opresult_balanced]; together '
+            'C40_holds : C40_full_statement.  The model is the code after the fix "destroy the moved-from object before nulling" (the model of the original code refuted the '
+            'property; its witnesses are kept as regression facts C40_regression and are replayed first on every run).  The correspondence runs the real class on generated '
+            'sequences, compares every intermediate state and counter with the model inside Coq and evaluates the executable property on the implementation output.',
     'note': 'Trusted: Coq kernel; harness/h_opresult.cpp + harness/life.h (address-keyed lifetime registry); hand-written model Model/OpResultModel.v tied differentially only. '
             'No axioms (Print Assumptions: closed).',
 }
@@ -24,13 +22,12 @@ ASSUMPTIONS = [
     'operation sequences are valid C++ programs: only variables without an object are constructed, only variables with an object are used, value() only on engaged ones',
     'payload type: life::L (int tag; moved-from tag = -1); its special members only report to the ledger, so the order and number of constructor/destructor calls are those of OpResult',
     'std::optional comparison uses libstdc++ (g++ 12, -std=c++17 for this harness only); a moved-from std::optional stays engaged (standard) -- that difference is treated as unspecified, not as a violation',
-    'known finding ' + FINDING + ': violations of the lifetime half are suppressed only when has_engaged_move(ops) = true (evaluated in Coq)',
 ]
 
 WITNESSES = [
-    ['D0', 'E0:7', 'M1:0', 'X0', 'X1'],                    # the design's witness: 2 constructed, 1 destroyed
+    ['D0', 'E0:7', 'M1:0', 'X0', 'X1'],                    # regression: former witness of the repaired leak (now 2 constructed, 2 destroyed)
     ['V0:5', 'D1', 'm1:0', 'X0', 'X1'],                    # move assignment
-    ['D0', 'E0:7', 'M1:0', 'E0:8', 'X0', 'X1'],            # construct over the moved-from object
+    ['D0', 'E0:7', 'M1:0', 'E0:8', 'X0', 'X1'],            # re-use of the moved-from OpResult
 ]
 
 
@@ -199,7 +196,7 @@ def run(ctx):
         kept.append((ops, ln, o))
     ctx.phase('run')
     imports = 'From DV Require Import Base.Corr Base.Life Model.OpResultModel Model.C40Check.'
-    hist = {0: 0, 1: 0, 2: 0, 3: 0, 4: 0}
+    hist = {0: 0, 1: 0, 2: 0, 3: 0}
     verdicts = []
     for k, (sh_t, sh_k) in enumerate(zip(pf_common.shard(terms, max(1, (len(terms) + 1499) // 1500)), pf_common.shard(kept, max(1, (len(kept) + 1499) // 1500)))):
         res = pf_common.coq_judge(ctx, 'cases%d' % k, imports, [('judge_c40_flat', sh_t)])
@@ -214,27 +211,22 @@ def run(ctx):
         cmd = "echo '%s' | %s" % (ln, exe)
         if any(x[0] in 'VWEP' for x in ops) and len(ops) >= 3:
             distinct.add(ln)
-        if v == 4:
-            what = ('OpResult lifetimes unbalanced after a move from an engaged OpResult: "%s" -> %s' % (ln, o.split(' ; O ')[0]))
-            ctx.violation(what, {'finding_key': FINDING, 'case': ln, 'output': o, 'cmd': cmd, 'domain': 'has_engaged_move = true'})
-        elif v == 2:
-            ctx.violation('OpResult violates C40 outside the known domain (no move from an engaged OpResult, or optional semantics broken): "%s" -> %s' % (ln, o),
+        if v == 2:
+            ctx.violation('OpResult violates C40 (optional semantics broken, or lifetimes unbalanced: live objects != contents of engaged variables / misuse / '
+                          'constructions != destructions at the end)%s: "%s" -> %s' % (' [regression witness of the repaired move leak]' if idx < nwit else '', ln, o.split(' ; O ')[0]),
                           {'case': ln, 'output': o, 'cmd': cmd})
         elif v == 1:
             ctx.broken.append('correspondence D(C40): implementation / std::optional differ from model / specification on "%s": %s' % (ln, o))
         elif v == 3:
             ctx.broken.append('driver generated an invalid sequence: ' + ln)
-        if idx < nwit and v != 4:
-            ctx.cov.setdefault('witness_not_reproduced', []).append(ln)
     ctx.cov['evaluations'] += len(verdicts)
     ctx.cov['distinct_nontrivial'] += len(distinct)
-    ctx.cov['traces_validated_against_impl'] += hist[0] + hist[4]
-    ctx.cov['rule'] = ('3 witnesses of the finding; every valid sequence of length <= 3 over 2 variables (then destroy all); random sequences of length 3..30 over 4 '
-                       'variables, half of them restricted to the complement of the finding domain.  Every intermediate state (engaged?, tag) and the payload ledger '
+    ctx.cov['traces_validated_against_impl'] += hist[0]
+    ctx.cov['rule'] = ('3 regression witnesses of the repaired move leak first; every valid sequence of length <= 3 over 2 variables (then destroy all); random sequences of length 3..30 over 4 '
+                       'variables, half of them without moves of engaged values (where OpResult = std::optional exactly).  Every intermediate state (engaged?, tag) and the payload ledger '
                        '(live objects, misuses) after every operation and all counters at the end are compared with the model; std::optional<L> is run on the same sequence and '
                        'compared with the specification.  Non-trivial = >= 3 operations with at least one value; distinct = distinct sequences')
-    ctx.cov['verdict_histogram'] = {'agree_and_property_holds': hist[0], 'differs_but_property_holds': hist[1], 'property_fails_outside_domain': hist[2],
-                                    'invalid_case': hist[3], 'lifetime_fails_inside_known_domain(move from engaged)': hist[4]}
+    ctx.cov['verdict_histogram'] = {'agree_and_property_holds': hist[0], 'differs_but_property_holds': hist[1], 'property_fails': hist[2], 'invalid_case': hist[3]}
     ctx.cov['ops_total'] = sum(len(ops) for ops, _, _ in kept)
     for ops, ln, o in kept[:1] + kept[len(kept) // 2: len(kept) // 2 + 2]:
         ctx.sample({'ops': ln, 'impl': o[:300]})
